@@ -36,18 +36,30 @@ def _t(x):
 
 
 def strengthen_side(pc, side):
-    """side conditions Implies(guard, body) with pc |= guard become plain `body`"""
+    """side conditions Implies(guard, body) with pc (and the bodies already released) |= guard become plain `body`;
+    iterated to a fixpoint (1/(1/s): the inner quotient is non-zero because of its own defining equation)"""
+    pending = list(side)
     out = []
-    s = core.mk_solver(2000)
+    s = core.mk_solver(1500)
     s.add(*pc)
-    for sc in side:
-        if z3.is_implies(sc):
-            g, body = sc.arg(0), sc.arg(1)
-            if s.check(z3.Not(g)) == z3.unsat:
-                out.append(body)
-                continue
-        out.append(sc)
-    return out
+    progress = True
+    while progress and pending:
+        progress = False
+        rest = []
+        for sc in pending:
+            if z3.is_implies(sc):
+                g, body = sc.arg(0), sc.arg(1)
+                if s.check(z3.Not(g)) == z3.unsat:
+                    out.append(body)
+                    s.add(body)
+                    progress = True
+                    continue
+                rest.append(sc)
+            else:
+                out.append(sc)
+                s.add(sc)
+        pending = rest
+    return out + pending
 
 
 def split_goal(goal):
@@ -59,8 +71,8 @@ def split_goal(goal):
     return [goal]
 
 
-def prove(pc, side, goal, want_model=True):
-    """returns Verdict"""
+def prove(pc, side, goal, want_model=True, quick=False):
+    """returns Verdict.  quick: short budgets (used for semantic atom merging, where `undecided` is harmless)"""
     goal = _t(goal)
     pc = [_t(p) for p in pc]
     t0 = time.time()
@@ -69,7 +81,7 @@ def prove(pc, side, goal, want_model=True):
     parts = split_goal(z3.simplify(goal)) if True else [goal]
     worst = None
     for g in parts:
-        v = _prove1(pc, side2, g)
+        v = _prove1(pc, side2, g, quick)
         if v.status == 'refuted':
             v.secs = time.time() - t0
             return v
@@ -81,11 +93,11 @@ def prove(pc, side, goal, want_model=True):
     return Verdict('proved', backend=v.backend if parts else 'trivial', secs=time.time() - t0)
 
 
-def _prove1(pc, side, goal):
+def _prove1(pc, side, goal, quick=False):
     if z3.is_true(goal):
         return Verdict('proved', backend='trivial')
     s = None
-    for budget in (Z3_FIRST, Z3_TIMEOUT):
+    for budget in ((600, ) if quick else (Z3_FIRST, Z3_TIMEOUT)):
         t0 = time.time()
         s = core.mk_solver(budget)
         s.add(*pc)
@@ -98,7 +110,7 @@ def _prove1(pc, side, goal):
             return Verdict('proved', backend='z3')
         if r == z3.sat:
             return Verdict('refuted', model=s.model(), backend='z3')
-        if budget == Z3_FIRST:
+        if budget in (Z3_FIRST, 600):
             # 2. polynomial normal form (between the short and the long z3 attempt)
             t1 = time.time()
             try:
@@ -109,6 +121,8 @@ def _prove1(pc, side, goal):
             STATS['sympy_s'] += time.time() - t1
             if ok:
                 return Verdict('proved', backend='sympy-normal-form')
+    if quick:
+        return Verdict('undecided', backend='z3+sympy', note='quick mode')
     # 3. cvc5
     t2 = time.time()
     r2 = cvc5_check(pc, side, goal)
